@@ -58,6 +58,10 @@ func (m *patternMatcher) matchToEnd() []Capture {
 
 func (m *patternMatcher) match() {
 	for m.pi < len(m.items) {
+		// Every item tried costs something, whether it matches or not: a
+		// pattern can make the matcher do a lot of work without ever
+		// advancing in the subject.
+		m.consumeBudget()
 		switch item := m.items[m.pi]; item.ptnType {
 		case ptnOnce:
 			if !m.matchNext(item.bytes) {
@@ -100,6 +104,10 @@ func (m *patternMatcher) match() {
 		case ptnCapture:
 			c := m.captures[item.bytes[0]]
 			end := m.si + c.end - c.start
+			if c.end > c.start {
+				// Comparing with the capture costs as much as it is long.
+				m.consumeBudgetN(uint64(c.end - c.start))
+			}
 			if end <= len(m.s) && m.s[c.start:c.end] == m.s[m.si:end] {
 				m.si = end
 				m.pi++
@@ -181,6 +189,7 @@ func (m *patternMatcher) getNext() (b byte, ok bool) {
 }
 
 func (m *patternMatcher) trackback() {
+	m.consumeBudget()
 	i := len(m.trackbacks) - 1
 	if i < 0 {
 		m.pi = len(m.items)
@@ -210,6 +219,17 @@ func (m *patternMatcher) consumeBudget() {
 	if m.budget == 0 {
 		panic(budgetConsumed)
 	}
+}
+
+func (m *patternMatcher) consumeBudgetN(n uint64) {
+	if m.budget == 0 {
+		return
+	}
+	if m.budget <= n {
+		m.budget = 0
+		panic(budgetConsumed)
+	}
+	m.budget -= n
 }
 
 var budgetConsumed interface{} = "budget consumed"
